@@ -72,10 +72,10 @@ def _ops():
         ops.append(("delitem", k, False))
         ops.append(("pop", k, False))
         ops.append(("pop_default", k))
-        for v in OVALS:
+        for v in OVALS + [b""]:  # an empty field value is a value like any other
             ops.append(("setitem", k, v))
         ops.append(("setitem_current", k))  # h[k] = h[k]: assign the value the collection itself reports
-        for vs in ([], [OVALS[0]], [OVALS[1]], [OVALS[0], OVALS[1]], [OVALS[1], OVALS[1]], [OVALS[1], OVALS[0], OVALS[0]]):
+        for vs in ([], [OVALS[0]], [OVALS[1]], [OVALS[0], OVALS[1]], [OVALS[1], OVALS[1]], [OVALS[1], OVALS[0], OVALS[0]], [b"", OVALS[0]], [OVALS[0], b""]):
             ops.append(("set_all", k, tuple(vs)))
     for k in (b"A", b"ab"):  # bytes keys are accepted as well
         for kind in ("getitem", "get_all", "contains", "delitem", "pop"):
